@@ -670,6 +670,11 @@ func (r *runner) resolveCompletedTasks(ctx context.Context, completedTasks []*ta
 				if _, ok := writeChannelValues[next]; !ok {
 					writeChannelValues[next] = make(map[string]any)
 				}
+				// a successor may be named twice (by a branch and by an edge, or by two
+				// branches): it keeps one copy, the copy it replaces must be released
+				if old, ok := writeChannelValues[next][t.nodeKey].(streamReader); ok {
+					old.close()
+				}
 				writeChannelValues[next][t.nodeKey] = vs[i]
 			}
 		}
